@@ -180,6 +180,8 @@ pub struct Policy {
     pub terms: Vec<Term>,
     /// fail the n-th flush call (0-based) with EIO
     pub flush_fail: Option<u32>,
+    /// source only: behaves like a pipe — every seek / stream_position fails with ESPIPE
+    pub not_seekable: bool,
 }
 impl Policy {
     pub fn plain() -> Self {
@@ -364,6 +366,10 @@ impl Seek for SimSource {
     fn seek(&mut self, s: SeekFrom) -> Result<u64> {
         let mut io = self.core.io.borrow_mut();
         io.k(K::SeekCalls);
+        if self.core.pol.not_seekable {
+            io.ev(self.core.id, "seek", 0, -29, "ESPIPE");
+            return Err(Error::from_raw_os_error(29));
+        }
         let np: i128 = match s {
             SeekFrom::Start(x) => x as i128,
             SeekFrom::Current(d) => self.pos as i128 + d as i128,
